@@ -15,4 +15,5 @@ CONSTANTS
   Dev_RemovedForStaged = FALSE
   Dev_EnableErrorIgnored = FALSE
 INVARIANTS IdsIncreasing
+VIEW MCView
 CHECK_DEADLOCK FALSE
